@@ -14,10 +14,13 @@ B1 == {"b1"}
 NoTargets == {}
 AllTargets == {"nil", "never", "stopped", "foreign"}
 SomeTargets == {"never", "foreign"}
+LocalTargets == {"never", "stopped"}
 NoSenders == {"nil"}
 BothSenders == {"nil", "snd"}
 AllSenders == {"nil", "snd", "req"}
 ReqSenders == {"nil", "req"}
 PlainPayload == {"msg"}
 BothPayloads == {"msg", "nil"}
+\* "dead": the message value is itself a DeadLetterEvent (a subscriber relaying one to a supervisor that is gone)
+AllPayloads == {"msg", "nil", "dead"}
 ====
